@@ -39,7 +39,10 @@ def ambient_for(index, replay=None):
     # repository's own scripts use), a C locale with UTF-8 mode off (bundled files opened with the default encoding), debug logging
     # configured for every logger (a guarded `if log.isEnabledFor(DEBUG)` block that does more than log)
     return {'hashseed': str(index % 5), 'cwd': [core.VERIF, core.REPO, '/'][index % 3], 'optimize': index % 4 == 3, 'warnings': index % 4 == 1,
-            'env': [None, None, 'DEBUG=1', None, 'C-locale', None, 'debug-logging'][index % 7]}
+            'env': [None, None, 'DEBUG=1', None, 'C-locale', None, 'debug-logging'][index % 7],
+            # the workload of every fifth shard runs in a thread of its own (a web worker, not the main thread: thread-local state
+            # set up at import, signal-only facilities)
+            'thread': index % 5 == 2}
 
 
 def run_shard(prop, tier, seed, spec, timeout, replay=None, index=0):
